@@ -5,7 +5,7 @@ ENTRY = {'coq_dir': 'C05',
  'harness': 'c05',
  'cases': {'quick': 1500, 'thorough': 400000},
  'consts': [],
- 'rule': 'TWO STREAMS. (1) Manager stream: adaptive seeded event histories (5-60 events quick, 10-120 thorough) against the real '
+ 'rule': 'THREE STREAMS. (1) Manager stream: adaptive seeded event histories (5-60 events quick, 10-120 thorough) against the real '
          'TransportManager with a scripted transport: dial requests by peer and by address, address additions, open/negotiate outcomes, '
          'inbound connections (ids drawn from the shared counter), accept futures, closures, limit configurations from {none,0,1,2,3}; 85% '
          'follow the transport contract and end with a settle phase (all owed answers delivered, every peer re-dialled), 15% add '
@@ -13,25 +13,33 @@ ENTRY = {'coq_dir': 'C05',
          'multiaddress shapes from the C10 grammar (accepted shapes, missing /p2p, components after the peer id, wrong first/second '
          "component, ws/quic shapes, the node's own listen address). After every event the transport calls, protocol notifications, "
          'manager events, return code and a dump of peer states / pending / counted sets are compared with the extracted Coq model. (2) '
-         'TCP transport stream (one case in 10 quick / 400 thorough, first number 9000; harness/src/c05_tcp.rs): the REAL TcpTransport '
-         '(VerifTcpTransport facade) is driven over loopback sockets through its Transport trait and Stream::poll_next with adaptive call '
-         'sequences (5-40 steps quick, 8-70 thorough, max_parallel_dials from {8,1,2,3}): ids drawn from the shared counter, dial, open '
-         'with 0-5 addresses, negotiate (incl. the manager pattern cancel+negotiate without a poll between), cancel before / after '
-         'completion, accept / reject, inbound sockets with accept_pending / reject_pending, polls; 15% of the cases also reuse or invent '
-         'ids. Every address points at a gate (a loopback listener that connects through to one of two further real TcpTransport nodes A, '
-         'B with different identities, holds the bytes and is released by the harness: pass or close), at a closed port, or is malformed, '
-         'and independently NAMES a peer (none, A, B, nobody): listeners that complete the noise/yamux handshake, stall, close at once, or '
-         'answer with a different identity than the address names (on the dial path and on the open+negotiate path, also as the first of '
-         'several addresses); 3% of the cases instead use a 250 ms connection_open_timeout and let a stalled dial, a stalled open and the '
-         'overall open deadline time out. The harness ends one attempt at a time (the completion order of the inner futures is decided by '
-         'construction) and feeds that order to the model as events; after every step the call result, the TransportEvents polled (kind, '
-         'connection id, authenticated peer), the warn/debug lines of the branches of poll_next that drop a future (log tap) and a dump of '
-         'pending_dials / pending_inbound_connections / opened / cancel_futures (with is_aborted) / pending_open and the lengths of the '
-         'two future sets are compared with the extracted Coq model (coq/Tcp). prop_ok of this stream is the transport contract judged on '
-         "the implementation's own trace: open-phase events only for an owed open, outbound ConnectionEstablished / DialFailure only for "
-         'an owed negotiate, ConnectionEstablished names a peer the address of that id names, negotiate succeeds exactly on an opened id, '
-         'no owed answer is dropped, inbound ids come from the shared counter. Non-trivial: trace >= 8 numbers; distinct (case, trace) '
-         'pairs are counted.',
+         'transport streams (harness/src/c05_tcp.rs; first number 9000 TCP / 9001 WebSocket / 9002 QUIC; one TCP and one WebSocket case in '
+         '20 quick / 400 thorough; QUIC: the aux stream of the thorough tier, the harness built a second time with --features quic, 500 '
+         'cases + corpus/C05-quic): the REAL TcpTransport / WebSocketTransport / QuicTransport (VerifTcpTransport / VerifWsTransport / '
+         'VerifQuicTransport facades) is driven over loopback sockets through its Transport trait and Stream::poll_next (polled until '
+         'Pending without a self-wake) with adaptive call sequences (5-40 steps quick, 8-70 thorough, max_parallel_dials from {8,1,2,3}): '
+         'ids drawn from the shared counter, dial, open with 0-5 addresses, negotiate (incl. the manager pattern cancel+negotiate without '
+         'a poll between), cancel before / after completion, accept / reject, inbound connections with accept_pending / reject_pending, '
+         'polls; 15% of the TCP / WebSocket cases also reuse or invent ids (QUIC cases keep to owners that draw their ids, see '
+         'level_note). Every address is built in the shape of the transport under test and points at a gate (a loopback TCP listener / UDP '
+         'relay that connects through to one of two further real transports of the same kind, nodes A and B with different identities, '
+         'holds the bytes and is released by the harness: pass or close), at a closed port, is malformed, is a well-formed address of '
+         'ANOTHER transport (ws-shaped for TCP, tcp-shaped for WebSocket / QUIC), or (WebSocket) is a /wss address, and independently '
+         'NAMES a peer (none, A, B, nobody): an address without /p2p is an attempt for TCP and is refused by WebSocket / QUIC; listeners '
+         'that complete the handshake, stall, close at once, or answer with a different identity than the address names (on the dial path '
+         'and on the open+negotiate path, also as the first of several addresses); 3% of the cases instead use a 250 ms '
+         'connection_open_timeout and let a stalled dial, a stalled open and (TCP, WebSocket) the overall open deadline time out. The '
+         'harness ends one attempt at a time (the completion order of the inner futures is decided by construction) and feeds that order '
+         'to the model as events; the model side builds the same multiaddresses in the C10 grammar (coq/Tcp/Glue.v addr_of) and decides '
+         'with expect_of of coq/Tcp/Variants.v whether the transport takes them; after every step the call result, the TransportEvents '
+         'polled (kind, connection id, authenticated peer, endpoint direction), the warn/debug lines of the branches of poll_next that '
+         'drop a future (log tap) and a dump of pending_dials / pending_inbound_connections / opened (opened_raw) / cancel_futures (with '
+         'is_aborted) / pending_open and the lengths of the two future sets are compared with the extracted Coq model (coq/Tcp). A panic '
+         'of the implementation ends the case with the panic marker as its trace. prop_ok of these streams is the transport contract '
+         "judged on the implementation's own trace: open-phase events only for an owed open, outbound ConnectionEstablished (dialer "
+         'endpoint) / DialFailure only for an owed negotiate, ConnectionEstablished names a peer the address of that id names, dial '
+         'succeeds exactly on an address the transport parses, negotiate succeeds exactly on an opened id, no owed answer is dropped, '
+         'inbound ids come from the shared counter. Non-trivial: trace >= 8 numbers; distinct (case, trace) pairs are counted.',
  'level_text': 'Proof: the dial ledger is an inductive invariant (LInv) of the manager model over every event history the transport '
                "contract allows and every limit configuration: every pending attempt is owed an answer by the transport and is its peer's "
                'dial record, ids are fresh, terminal outputs close an attempt for good; consequences proved for all feasible histories: no '
@@ -52,27 +60,63 @@ ENTRY = {'coq_dir': 'C05',
                'what is owed is backed by a pending future; (e) ids: outbound ids come from the owner, inbound ids are the next counter '
                'value; identity: an outbound ConnectionEstablished names a peer the addresses of that id name (an answer by another '
                "identity ends in a failure). (b), (d), (e) assume the owner's hygiene caller_ok (ids passed to dial/open were drawn from "
-               'the shared counter and are used once), shown necessary by a witness. That model is tied to tcp/mod.rs by the TCP stream.',
+               'the shared counter and are used once), shown necessary by a witness. Over whole histories (Once.v, a token argument on the '
+               'ghost state): an id is answered by at most one of ConnectionOpened / OpenFailure and by at most one of outbound '
+               'ConnectionEstablished / DialFailure, what is still owed has not been answered, nothing is answered for an id the owner '
+               'never passed in. The SAME contract is proved for WebSocketTransport and QuicTransport (C05_tr_* / C05_ws_* / C05_quic_*): '
+               'the three transports keep the same books with the same poll_next, and differ in their front end, which is modelled per '
+               'transport over the multiaddress grammar of coq/C10 (Variants.v: expect_of = which addresses dial accepts and which '
+               'addresses of an open become attempts: TCP multiaddr_to_socket_address, optional /p2p; WebSocket multiaddr_into_url, '
+               '/ws|/wss and /p2p required; QUIC get_socket_address, /quic-v1 and /p2p required; QUIC has no overall open deadline); every '
+               'history of a transport is a history of the bookkeeping model (refinement C05_tr_refines_model), so (a)-(e), the progress '
+               'theorems and the at-most-once theorems hold per transport; in addition: dial returns Ok exactly on an address the '
+               'transport parses, open never fails, every address TransportManager can hand over (the shapes dial_address lets through, '
+               'coq/Mgr/DialShape.v; the `supported` addresses of the store, routed by `route`) is accepted by the transport it is routed '
+               'to and the expected peer is the dialled one, WebSocket and QUIC report an outbound connection only for a peer an address '
+               'names literally. The model is tied to tcp/mod.rs, websocket/mod.rs and quic/mod.rs by the transport streams.',
  'level_note': 'Trusted: Coq kernel, extraction, harness + ScriptedTransport hook. Transport contract `feas` (calls succeed, each is '
                'answered once unless cancelled, cancel is effective, the reported peer is the dialled one): no longer an assumption for '
-               'TCP, it is proved for the model coq/Tcp and tied to tcp/mod.rs by the TCP stream; still assumed there: the negotiation '
-               '(connection.rs negotiate_connection) authenticates the remote and honours its dialed_peer argument (exercised with real '
-               'handshakes, not modelled), timeouts fire (connection_open_timeout / the dial deadline are the model events "attempt '
-               'failed" / EExpire; 3% of the TCP cases and corpus/C05/tcp_timeouts.case run with a 250 ms timeout and end one future at a '
-               'time by waiting, all other cases use 60 s timeouts that never fire), tokio wakes ready futures, the OS delivers socket '
-               'events, the listener does not terminate; the composition of the TCP model with the manager model (caller_ok is what the '
-               'manager does: ids come from next_connection_id, li_fresh) is stated, not proved; "accept futures succeed" is still an '
-               "assumption; websocket / quic: contract still by reading; one transport (TCP) only; the address book is abstracted to 'has "
-               "an address' (scores are C10); `.await` on full protocol channels inside the DialFailure fan-out is not modelled.",
+               'TCP, WebSocket and QUIC: it is proved for the model coq/Tcp (+ the per-transport front ends of Variants.v) and tied to '
+               'tcp/mod.rs, websocket/mod.rs (quick + thorough tier) and quic/mod.rs (thorough tier only: aux stream, harness built with '
+               '--features quic) by the transport streams; still assumed there: the negotiation (connection.rs negotiate_connection) '
+               'authenticates the remote and honours its dialed_peer argument (exercised with real handshakes, not modelled), timeouts '
+               'fire (connection_open_timeout / the dial deadline are the model events "attempt failed" / EExpire; 3% of the transport-stream cases and the stored timeout cases, e.g. '
+               'corpus/C05/tcp_timeouts.case run with a 250 ms timeout and end one future at a time by waiting, all other cases use 60 s '
+               'timeouts that never fire), tokio wakes ready futures, the OS delivers socket events, the listener does not terminate; the '
+               'composition of the TCP model with the manager model (caller_ok is what the manager does: ids come from next_connection_id, '
+               'li_fresh) is stated, not proved; "accept futures succeed" is still an assumption; QUIC: the code tells a dialed from an '
+               'accepted connection by its pending_dials entry (TCP / WebSocket carry the endpoint inside the negotiated connection); the '
+               "model's endpoint direction is TCP's, the two coincide for an owner that draws its ids (invariant c_conn_dial), so the QUIC "
+               "stream keeps to such owners and the dump maps QUIC's pending_dials to the model's plus the ids of pending negotiate "
+               'futures; QUIC has no log line for a failed inbound handshake (that mark is not compared for QUIC); which of the addresses '
+               'of an open are in flight at a time (max_parallel_dials / buffer_unordered; QUIC: all) is not modelled: the model lets the '
+               'environment answer any attempt that is left, a superset; /wss: the TLS layer is environment (exercised against a plain '
+               'listener: the attempt fails; F-C05g); the transports are modelled one at a time (the multi-transport Opening of the '
+               "manager is the other model); the address book is abstracted to 'has an address' (scores are C10); `.await` on full "
+               'protocol channels inside the DialFailure fan-out is not modelled.',
  'trusted_base': ['transport contract of the feasible manager stream: open/dial/negotiate calls succeed, each is answered once unless '
-                  'cancelled, the reported peer is the dialled one: for TCP proved for the model coq/Tcp (C05_tcp_* theorems) and tied to '
-                  'the code by the TCP stream; what remains trusted for TCP: noise/yamux negotiation authenticates the remote and compares '
-                  'it with dialed_peer, timeouts fire, tokio, the OS; accept futures succeed (assumed)',
+                  'cancelled, the reported peer is the dialled one: for TCP, WebSocket and QUIC proved for the model coq/Tcp (C05_tcp_* / '
+                  'C05_tr_* / C05_ws_* / C05_quic_* theorems) and tied to the code by the transport streams (QUIC: thorough tier only); '
+                  'what remains trusted: noise/yamux negotiation authenticates the remote and compares it with dialed_peer, timeouts fire, '
+                  'tokio, the OS; accept futures succeed (assumed)',
                   'owner hygiene caller_ok of the TCP theorems (ids passed to dial/open were drawn from the shared counter, each used '
                   'once) is what TransportManager does (next_connection_id; li_fresh in LInv); the composition of the two models is not '
                   'proved',
                   'connection ids: inbound ids are drawn from the counter shared with the manager (AllocConn event / '
-                  'verif_alloc_connection_id hook)'],
- 'assumptions': ['single installed transport (default cargo features of the harness build)',
+                  'verif_alloc_connection_id hook)',
+                  'multiaddress grammar and socket-address parsers of coq/C10/Model.v (tied to common/listener.rs and quic/listener.rs by '
+                  'the C10 stream); ws_url of coq/Tcp/Variants.v is a transcription of WebSocketTransport::multiaddr_into_url, tied by the '
+                  'WebSocket stream (dial results and attempt tables for every address shape the harness builds: own shape with and '
+                  'without /p2p, /wss, foreign, malformed)'],
+ 'assumptions': ['manager stream: single installed transport (default cargo features of the harness build)',
                  'debug build: a reachable debug_assert!(false) shows up as a panic',
-                 'TCP stream: loopback sockets; a completion that does not show up within 20 s is recorded as a missing answer']}
+                 'transport streams: loopback sockets / UDP relay; a completion that does not show up within 20 s is recorded as a missing '
+                 'answer',
+                 'QUIC stream: only in the thorough tier (second harness build with --features quic); a failing QUIC attempt ends by its '
+                 'idle timeout, so failing answers are generated only in the short-timeout cases'],
+ 'aux_stream': {'tiers': ['thorough'],
+                'features': 'quic',
+                'target_dir': 'target-quic',
+                'args': '--only-transport 9002',
+                'cases': {'thorough': 500},
+                'corpus': 'corpus/C05-quic'}}
